@@ -53,10 +53,10 @@ Proof. exact single_sided_view_parts. Qed.
 (* combined: additionally exactly one title-diff meta and one template holding the old head *)
 Theorem C14_combined_chrome : forall old new ops ic dc body,
   let v := view_doc KCombined old new ops ic dc body in
-  d_head v = map (deactivate false) (d_head new) ++
-             [title_meta ops; SEl (s2l "template") [(s2l "id", s2l "wm-diff-old-head")] false (map (deactivate false) (d_head old));
+  d_head v = flat_map (deactivate false) (d_head new) ++
+             [title_meta ops; SEl (s2l "template") [(s2l "id", s2l "wm-diff-old-head")] false (flat_map (deactivate false) (d_head old));
               style_node ic dc] /\
-  d_body v = map (deactivate false) body ++ [script_node].
+  d_body v = flat_map (deactivate false) body ++ [script_node].
 Proof. exact combined_view_parts. Qed.
 
 Theorem C14_combined_head_verbatim : forall old new ops ic dc body,
